@@ -29,13 +29,19 @@ LAYOUTS = {
     # nodes (seeded change C02-m12 gave such nodes the placeholder range)
     "def_defaults": ["def serve(host='0.0.0.0',", "          scratch='/tmp/x.sock',", "          port=8080):", "    return host"],
     "lambda_default": ["handler = lambda bind='0.0.0.0', tmp='/var/tmp/q': bind"],
+    # a comment on a line of its own INSIDE the statement (the blank line takes the comment): it sits on a line of the flagged statement like any other
+    # (seeded change C02-m13 dropped comments that have only white space before the `#`)
+    "blank_inside": ["subprocess.Popen(", "", "    'ls *',", "    shell=True,", ")"],
+    "blank_in_handler": ["try:", "    pass", "except Exception:", "", "    pass"],
+    "blank_in_load": ["cfg = yaml.load(", "", "    data,", ")"],
     "et_parse": ["t = xml.etree.cElementTree.parse(", "    src) or xml.etree.ElementTree.parse(src) or subprocess.Popen(c, shell=True)"],
 }
 # the test IDs each layout triggers (for targeted two-comment enumeration)
 LAYOUT_IDS = {"one_line": ["B101", "B602", "B607"], "four_lines": ["B101", "B602", "B607"], "nested_later_line": ["B602", "B607", "B301"],
               "nested_three": ["B602", "B301"], "password_kw": ["B106", "B104"], "call_stmt": ["B602", "B607"], "str_in_dict": ["B105", "B108"],
               "et_parse": ["B313", "B314", "B602"], "hash_md5": ["B324", "B602"], "snmp": ["B508", "B509", "B602"],
-              "bidi": ["B613"], "def_defaults": ["B104", "B108"], "lambda_default": ["B104", "B108"]}
+              "bidi": ["B613"], "def_defaults": ["B104", "B108"], "lambda_default": ["B104", "B108"],
+              "blank_inside": ["B602", "B607"], "blank_in_handler": ["B110"], "blank_in_load": ["B506"]}
 PRELUDE = ["import subprocess", "import pickle"]
 
 TESTS_TEXTS = [
@@ -113,6 +119,8 @@ def build_cases(res, rng, thorough):
         ("except_pass", {4: "# nosec"}), ("except_pass", {5: "# nosec B110"}), ("pickle_two", {2: "# nosec B301"}), ("pickle_two", {3: "# nosec pickle"}),
         ("et_parse", {2: "# nosec xml_bad_cElementTree"}), ("et_parse", {3: "# nosec xml_bad_ElementTree"}), ("et_parse", {2: "# nosec B313", 3: "# nosec xml_bad_ElementTree"}),
         ("et_parse", {3: "# nosec B101, xml_bad_ElementTree"}), ("et_parse", {2: "# nosec xml_bad_celementtree"}),
+        ("blank_inside", {3: "# nosec"}), ("blank_inside", {3: "# nosec B602"}), ("blank_in_handler", {5: "# nosec: try_except_pass"}), ("blank_in_handler", {5: "# nosec"}),
+        ("blank_in_load", {3: "# nosec"}), ("blank_in_load", {3: "# nosec B506"}), ("blank_inside", {3: "# nosec B101"}),
         ("bidi", {3: "# nosec"}), ("bidi", {3: "# nosec B613"}), ("bidi", {4: "# nosec: trojansource"}), ("bidi", {3: "# nosec B101"}), ("bidi", {4: "# nosec B101, B613"}), ("bidi", {2: "# nosec"}),
         ("def_defaults", {2: "# nosec B104"}), ("def_defaults", {3: "# nosec"}), ("def_defaults", {3: "# nosec B104"}), ("def_defaults", {2: "# nosec B108", 3: "# nosec B108"}),
         ("lambda_default", {2: "# nosec B108, B104"}), ("lambda_default", {2: "# nosec hardcoded_tmp_directory"}),
@@ -302,6 +310,35 @@ def _run_props(res, ctx):
                 res.violation("withheld ≠ (a nosec comment on the finding's lines is bare or names its test)",
                               {"program": src, "comments": comments, "finding": list(f), "lines": L, "covered_by_spec": covered, "withheld_by_impl": is_withheld})
         # (d) optional accelerator: the comment parser itself against the model
+    # ---- under a SELECTION: a comment that names only tests which are not selected stays a comment naming those tests — it does not become a blanket one
+    #      (seeded change C02-m14 intersected the named ids with the selected ones; an empty intersection then read as a bare `# nosec`)
+    sel_progs = [p for p in progs if p[1]][:: max(1, len([p for p in progs if p[1]]) // 160)][:160]
+    scratch2 = C.Scratch()
+    try:
+        for prof in ({"exclude": {"B101"}, "include": set()}, {"include": {"B602", "B607", "B301"}, "exclude": set()}, {"exclude": {"B602", "B404", "B403"}, "include": set()}):
+            srcs = [p[0].encode() for p in sel_progs]
+            rn = C.batch_real_scan(scratch2, srcs, ignore_nosec=False, profile=prof)
+            ri_ = C.batch_real_scan(scratch2, srcs, ignore_nosec=True, profile=prof)
+            for (src, comments, meta), a, b in zip(sel_progs, rn, ri_):
+                comments = {int(k): v for k, v in comments.items()}
+                names = {ln: spec_names(txt, reg) for ln, txt in comments.items()}
+                res.case(("selection", tuple(sorted(prof["include"])), tuple(sorted(prof["exclude"])), src), True)
+                res.count("under-selection")
+                withheld = list(b["findings"])
+                for f in a["findings"]:
+                    if f in withheld:
+                        withheld.remove(f)
+                for f in b["findings"]:
+                    L = sorted(set([f[3]] + list(f[4])))
+                    nosec_lines = [l for l in L if names.get(l) is not None]
+                    if len(nosec_lines) >= 2:
+                        continue                      # two comments on one finding: the listed known finding's region
+                    covered = any(len(names[l]) == 0 or f[0] in names[l] for l in nosec_lines)
+                    if covered != (f in withheld) and not any(re.search(r",[A-Za-z0-9_]", comments[l].split("nosec", 1)[1].split("#", 1)[0]) for l in nosec_lines):
+                        res.violation("under a selection: withheld ≠ (a nosec comment on the finding's lines is bare or names its test)",
+                                      {"program": src, "comments": comments, "selection": {k: sorted(v) for k, v in prof.items()}, "finding": list(f), "covered_by_spec": covered, "withheld_by_impl": f in withheld})
+    finally:
+        scratch2.close()
     # parser-level differential: every comment text through _parse_nosec_comment vs model
     if ctx["driver_ok"] and impl_parse is not None:
         d = C.Driver()
